@@ -239,7 +239,7 @@ fn corrupt_csv(rng: &mut Rng, text: &str, n_rows_hint: usize) -> Vec<u8> {
     }
 }
 
-fn quote(s: &str) -> String {
+pub fn quote(s: &str) -> String {
     if s.contains(',') || s.contains('"') || s.contains('\n') {
         format!("\"{}\"", s.replace('"', "\"\""))
     } else {
@@ -247,7 +247,7 @@ fn quote(s: &str) -> String {
     }
 }
 
-fn split_csv_line(l: &str) -> Vec<String> {
+pub fn split_csv_line(l: &str) -> Vec<String> {
     // minimal CSV splitter for our own generated lines
     let mut out = vec![];
     let mut cur = String::new();
